@@ -532,6 +532,11 @@ class WriteCanon:
                     i += 3
                     continue
             if k == "zlib-start":
+                # the integer written right before the compressed stream is its decompressed size (`k * v.len()`, `v.len()` when the
+                # elements are one byte wide, a sum of sizes), not the element count of the array inside the stream
+                if out and out[-1].get("len_of") is not None and self.len_items.get(out[-1]["len_of"]) is out[-1]:
+                    del self.len_items[out[-1]["len_of"]]
+                    out[-1]["decompressed_size_of"] = out[-1]["len_of"]
                 rest_items = items[i + 1:]
                 rest = self.seq(rest_items)
                 out.append({"c": "zlib", "items": rest, "ctor": it.get("ctor")})
